@@ -19,14 +19,20 @@ Requests (one s-expression per line)                      reply
           (stable argsort; comparable only up to reordering inside runs of equal ids)
   (intdatap ((<perm>…)…) (<group>…))   the same with the given argsort results (NumPy's actual output), plus a
         trailing <all perms satisfy IsArgsort: true|false>
+  (emit ((<perm>…)…) (<group>…))      the tables `C/form.py` emits for a FormIR with the given argsort results:
+        → ((<kernel>…) (<id>…) (<offset>…) ((<id> <name> <tag>)…))   kernel = (<integral name> <domain tag>) for `&name_tag`
+          (`emitKernels`, `emitIds`, `offsets`, `emit` of the argsorted, concatenated groups)
   (formir (<itg>…))         itg = (<integral type> (<id>|otherwise …) <name> (<domain tag>…))
         → (ok (<group>…)) | (error <message>)
+  (coeffaccess <width> (<dim>…) <k> <dof>)                <index into w> <in block k: true|false>   — `coeffAccess`
+  (readonly …) (coefreads …) (exprstores …) (evali …)     see FfcxModel/Driver/ReadOnly.lean
   (exprdesc <tdim>|none <num points> <pdim> (<value shape>…) (<arg dim>…) (<orig coeff id>…) (<coeff id>…)
             ((<const extent>…)…) <num constants after preprocessing>)
         → (ok (<num_points> <entity_dimension> (<value_shape>…) <num_components> <rank> <num_coefficients>
                <num_constants> (<original_coefficient_positions>…) <entity_type> <size of A>)) | (error <message>)
 -/
 import FfcxModel.Driver.Loop
+import FfcxModel.Driver.ReadOnly
 import FfcxModel.IR.Layout
 import FfcxModel.Generated.IntegralTypes
 
@@ -75,6 +81,9 @@ end LayoutDriver
 
 open LayoutDriver in
 def dispatch (req : Sexp) : Except String Sexp :=
+  match Driver.ReadOnly.handle req with
+  | some r => r
+  | none =>
   match req with
   | .list (.atom cmd :: args) =>
     match cmd, args with
@@ -125,6 +134,21 @@ def dispatch (req : Sexp) : Except String Sexp :=
         (ps.zip gs).all (fun p => isArgsortB (p.2.map (·.id)) p.1)
       pure (.list [.list (d.names.map .atom), ofInts d.ids, ofNats d.offsets,
                    .list (d.domains.map ofNats), ofNats counts, .ofBool (delimitsB d.offsets counts), .ofBool okp])
+    | "emit", [ps, gs] => do
+      let gs ← (← gs.asList).mapM group
+      let ps ← (← ps.asList).mapM nats
+      let sorted := List.zipWith sortGroup ps gs
+      let es := sorted.flatten
+      pure (.list [.list ((emitKernels es).map (fun p => .list [.atom p.1, .ofNat p.2])), ofInts (emitIds es),
+                   ofNats (offsets sorted),
+                   .list ((emit es).map (fun r => .list [.ofInt r.1, .atom r.2.1, .ofNat r.2.2]))])
+    | "coeffaccess", [w, ds, k, dof] => do
+      let w ← w.asNat
+      let ds ← nats ds
+      let k ← k.asNat
+      let a := coeffAccess w ds k (← dof.asNat)
+      let off := (coeffOffsets w ds).getD k 0
+      pure (.list [.ofNat a, .ofBool (decide (off ≤ a) && decide (a < off + w * ds.getD k 0))])
     | "formir", [is] => do
       let is ← (← is.asList).mapM itg
       match formIR Generated.formIrTypes.length is with
